@@ -429,8 +429,40 @@ fn long_choice_jobs() -> Vec<Job> {
     jobs
 }
 
+/// Member counts beyond 16 and 32 bits, reachable at no cost with zero-sized members: every flavour must
+/// accept the collection, report exactly its length and hand out a member.
+fn wide_count_check(ctx: &mut Ctx) {
+    let lens: Vec<u64> = vec![255, 256, 65_535, 65_536, 65_537, (1 << 32) - 1, 1 << 32, (1 << 32) + 5, (1 << 33) + 1];
+    let seed = ctx.seed;
+    ctx.run_cases("wide_member_counts", lens, |len, probe| {
+        let len = *len as usize;
+        probe.nontrivial = true;
+        let items: Vec<()> = vec![(); len];
+        let mut rng = StdRng::seed_from_u64(seed ^ len as u64);
+        macro_rules! flavour {
+            ($name:expr, $build:expr) => {{
+                match guarded(|| $build.map(|d| (ChoicesDistribution::num_choices(&d).get(), { let _ = d.sample(&mut rng); }))) {
+                    Err(p) => fail!("choice/panic", "{} over {len} zero-sized members panicked: {p}", $name),
+                    Ok(Err(_)) => fail!("choice/spurious-empty-error", "{} over {len} zero-sized members was rejected as empty", $name),
+                    Ok(Ok((n, ()))) => ensure!(n == len, "choice/num_choices", "{} over {len} zero-sized members reports num_choices() = {n}", $name),
+                }
+            }};
+        }
+        flavour!(FLAVOURS[0], items.clone().into_distribution());
+        flavour!(FLAVOURS[1], IntoDistribution::<&()>::into_distribution(&items));
+        flavour!(FLAVOURS[2], IntoDistribution::<()>::into_distribution(&items));
+        flavour!(FLAVOURS[3], ToDistribution::<()>::to_distribution(&items));
+        flavour!(FLAVOURS[4], ToDistribution::<&()>::to_distribution(&items));
+        flavour!(FLAVOURS[10], IntoDistribution::<&()>::into_distribution(items.as_slice()));
+        flavour!(FLAVOURS[11], IntoDistribution::<()>::into_distribution(items.as_slice()));
+        flavour!(FLAVOURS[12], ToDistribution::<&()>::to_distribution(items.as_slice()));
+        flavour!(FLAVOURS[13], ToDistribution::<()>::to_distribution(items.as_slice()));
+        Ok(())
+    });
+}
+
 pub fn run(ctx: &mut Ctx) {
-    ctx.rule = "collections: sizes 0..300 plus boundary sizes up to 5000 (and 100000 once per run) through Generator for Vec<T>, Bitstring, Plushy, populations of scored individuals and nested collections, into_ and to_ flavours, with an element generator that counts how often it is asked and tags what it emits (length = size, asked exactly size times, elements are exactly the generator's output). choices: all 14 conversion flavours of conversion.rs (Vec / array / slice x into / to x owned-cloning / borrowing / cloning) plus uniform_distribution_of!, sources of length 0..8 (membership) and 1..200 (frequencies) with and without duplicates, plus the Vec / slice flavours built once over 255..65537 members and sampled many times (16 index buckets and the end members): empty => rejected at construction without panic; samples are members (pointer identity for borrowing flavours), num_choices = length; member frequencies = multiplicity / length (Chernoff/KL). non-trivial = size >= 2 / source length >= 2; statistics with 0 < p < 1".into();
+    ctx.rule = "collections: sizes 0..300 plus boundary sizes up to 5000 (and 100000 once per run) through Generator for Vec<T>, Bitstring, Plushy, populations of scored individuals and nested collections, into_ and to_ flavours, with an element generator that counts how often it is asked and tags what it emits (length = size, asked exactly size times, elements are exactly the generator's output). choices: all 14 conversion flavours of conversion.rs (Vec / array / slice x into / to x owned-cloning / borrowing / cloning) plus uniform_distribution_of!, sources of length 0..8 (membership) and 1..200 (frequencies) with and without duplicates, plus the Vec / slice flavours built once over 255..65537 members and sampled many times (16 index buckets and the end members), and sources of up to 2^33+1 zero-sized members (accepted, num_choices exact): empty => rejected at construction without panic; samples are members (pointer identity for borrowing flavours), num_choices = length; member frequencies = multiplicity / length (Chernoff/KL). non-trivial = size >= 2 / source length >= 2; statistics with 0 < p < 1".into();
     let (n, trials, max) = ctx.tier.pick((300_000u32, 1_000_000u64, 300usize), (5_000_000, 10_000_000, 2_000));
     // one very large request per run
     ctx.run_cases(
@@ -446,12 +478,15 @@ pub fn run(ctx: &mut Ctx) {
     ctx.run_prop("generated", n, move || strategy(max), oracle);
     run_jobs(ctx, "choice_uniformity", uniformity_jobs(), trials);
     run_jobs(ctx, "choice_uniformity_long_sources", long_choice_jobs(), trials);
+    wide_count_check(ctx);
 }
 
 pub fn replay(ctx: &mut Ctx, sub: &str, case: &Value) {
     if sub == "choice_uniformity" {
         let trials = ctx.tier.pick(1_000_000u64, 10_000_000);
         run_jobs(ctx, "choice_uniformity", uniformity_jobs(), trials);
+    } else if sub == "wide_member_counts" {
+        wide_count_check(ctx);
     } else if sub == "choice_uniformity_long_sources" {
         let trials = ctx.tier.pick(1_000_000u64, 10_000_000);
         run_jobs(ctx, "choice_uniformity_long_sources", long_choice_jobs(), trials);
